@@ -260,7 +260,10 @@ impl Check for C14 {
         "C14"
     }
     fn profiles(&self) -> Vec<ProfileSpec> {
-        vec![ProfileSpec { name: "choking", quick: 6000, thorough: 150_000 }]
+        vec![
+            ProfileSpec { name: "choking", quick: 4000, thorough: 120_000 },
+            ProfileSpec { name: "bookkeeping", quick: 4000, thorough: 80_000 },
+        ]
     }
     fn rule(&self) -> &'static str {
         "profile choking: 8-16 listed + 0-6 dial-in peers, interest toggling, differing transfer speeds (distinct and tied rates), bitfields arriving in bursts, 3-8 rotations (30-90 virtual s), seeded peer-map hasher keys (tie order). Non-trivial: >= 1 rotation was carried out with >= 1 interested peer, or >= 11 peers were connected at once. Distinct: interleaving hash x number of peers."
